@@ -16,17 +16,6 @@ Qed.
 Definition logical_fixed (size cbf : N) : dtype :=
   DFixed 1 size (bit cbf 0) (bit cbf 1) (bit cbf 2) (N.testbit cbf 3) 0 (8 * size).
 
-Definition fixed_case (tol : tolerance) (size cbf : N) : bool :=
-  match spec_dec_datatype tol false (enc_datatype (mk_num DT_FIXED size cbf)), dev tol T_fixed_props_malformed with
-  | Ok (t, tg), Ok tg' => match t with
-                          | DFixed 1 s o lo hi sg 0 p =>
-                              (s =? size) && (o =? bit cbf 0) && (lo =? bit cbf 1) && (hi =? bit cbf 2) &&
-                              Bool.eqb sg (N.testbit cbf 3) && (p =? 8 * size) && (length tg =? length tg')%nat
-                          | _ => false
-                          end
-  | Err, Err => true
-  | _, _ => false
-  end.
 
 (* Integer types (sizes 1, 2, 4, 8; class bits without reserved bits): the property bytes are (byte order, bits, 0, 0) where the
    specification has bit offset (2) and precision (2): read per specification the precision is 0.  The strict decoder rejects; the
